@@ -17,7 +17,7 @@ for pid in ALL:
             "evidence_file": f"/verif/evidence/{pid}.json",
             "replay_cmd_template": f"./check {pid} --replay {{path}}",
             "engine": "pyvc",
-            "level_claimed": {"category": m["category"], "text": m["text"], "design_ref": m.get("design_ref", "DESIGN.md §5 " + pid)},
+            "level_claimed": {"category": m["category"], "text": m["text"], "design_ref": m.get("design_ref", "DESIGN.md §11.3 (as built); §5 " + pid + " (plan)")},
             "level_note": m["note"],
             "technique": m["technique"],
         })
